@@ -52,6 +52,12 @@ CLAIMED = {
  "C19": ("proof", "§7 C19",
   "Map-order independence of the functions under contract: findLeader's result is proved to be the least element of the candidate set under the arbitrary-enumeration semantics of map range (every iteration order), MakeFirstGraph's result is a function of the rule table, cleanupCharClassMatcher keeps first occurrences in their original order.",
   "ComputeNullables' flags depend on visit order inside cycles (defect F11, demonstrated in DESIGN §9, not expressible as a discharged obligation); SCC/cycle enumeration order is outside the subset (results are compared as sets by the assumed contract)"),
+ "C04": ("other", "§7 C04",
+  "The static part of 'the emitted file compiles' is decided exhaustively through the real builder: all 32 instantiations of the runtime template (5 booleans) are emitted by builder.BuildParser + imports.Process and type-checked with go/types, and -nolint is shown to change comments only; every Unicode class name the front-end accepts is looked up in the tables of the toolchain in use (rangeTable cannot panic at package initialisation); rangeTable itself is verified; funcName is verified to return \"on\"+rule+itoa(index) and the injectivity of that scheme is posed to z3's string theory (it fails: known finding F3, with the solver's model in the replay file and a compile-error witness); writeExprCode is verified to open a label scope for exactly the expression kinds for which the runtime pushes a variable frame (call-site obligations per recursive call), balanced, with lower scopes untouched.",
+  "'compiles together with the user's package and passes go vet for every grammar' needs Go's static semantics of user code as a specification: not decided. The grammar-dependent part of the emission (var g literal, on*/callon* glue) is printf text whose denotation is trusted; F7c (label clash after inlining) is not decided."),
+ "C10": ("proof", "§7 C10",
+  "Layer 1 of the design: for every function of the runtime, the optimized and the standard instantiation (and every left-recursion / state / basic-latin combination) are verified against the SAME contract set -- the PEG judgement and value shapes (C01), what code blocks observe (C02), state-store rollback (C05), seed growing (C08), error list contents (C11), failure record (C12), throw/recover (C14), budget (C16), invalid UTF-8 (C17) -- so both are pinned to one functional specification; the variant-specific dispatch of parseRuleWrap is proved to send exactly the leader to the growth loop, members of a cycle past every rule-level memo, and plain rules to parseRule; template arms that exist in only one of the two (Debug/Memoize/Statistics) are proved to touch only depth, the memo and the statistics maps.",
+  "relational layer 2 (same value for the same oracle answers of code blocks) is a meta-argument over the shared contracts, not machine-checked; flag wiring in main.go is not under contract"),
 }
 
 NOT_APPLICABLE = {
